@@ -1,9 +1,12 @@
 package rules
 
 import (
+	"fmt"
 	"go/ast"
 	"go/token"
 	"go/types"
+	"strings"
+	"verif/checker/internal/orderdom"
 
 	"verif/checker/internal/prog"
 )
@@ -133,6 +136,7 @@ func init() {
 				r.Fail(dp.Name()+":old-ranges", dp.Decl.Pos(), nil, "the list of old key-group ranges is not built index-by-index from the old operator checkpoints: the indices returned by AssignRanges would pick the wrong checkpoints")
 			}
 			var assignments types.Object
+			var assignDef token.Pos
 			inspect(dp.Decl.Body, func(nd ast.Node) bool {
 				as, ok := nd.(*ast.AssignStmt)
 				if !ok || len(as.Rhs) != 1 {
@@ -144,6 +148,7 @@ func init() {
 				}
 				r.Site(call.Pos(), "AssignRanges(new ranges, old ranges)")
 				assignments = prog.IdentObj(info, as.Lhs[0])
+				assignDef = as.Lhs[0].Pos()
 				if oldRanges == nil || prog.IdentObj(info, call.Args[1]) != oldRanges {
 					r.Fail(dp.Name()+":assign-from", call.Pos(), nil, "AssignRanges' second argument is not the list of old ranges")
 				}
@@ -166,6 +171,56 @@ func init() {
 			if assignments == nil {
 				r.Fail(dp.Name()+":no-assign", dp.Decl.Pos(), nil, "Deploy no longer computes which old checkpoints each new operator needs")
 				return
+			}
+			// what AssignRanges computed is what is deployed: the assignment list is only read (element
+			// i for operator i, len / range); nothing stores into it, appends to it or replaces it
+			for _, u := range r.P.Uses(assignments) {
+				if u.Scope == nil || u.Scope.Fn == nil || u.Scope.Fn.Obj != dp.Obj {
+					continue
+				}
+				path := r.P.PathTo(u.File, u.Ident.Pos(), u.Ident.End())
+				written := ""
+				for k := len(path) - 2; k >= 0 && written == ""; k-- {
+					switch x := path[k].(type) {
+					case *ast.AssignStmt:
+						for _, l := range x.Lhs {
+							if l.Pos() <= u.Ident.Pos() && u.Ident.End() <= l.End() && u.Ident.Pos() != assignDef {
+								written = "it is assigned to"
+							}
+						}
+						k = -1
+					case *ast.IncDecStmt:
+						written = "it is modified"
+					case *ast.UnaryExpr:
+						if x.Op == token.AND {
+							switch y := ast.Unparen(x.X).(type) {
+							case *ast.Ident:
+								if y == u.Ident {
+									written = "its address is taken"
+								}
+							case *ast.IndexExpr:
+								if id, isID := ast.Unparen(y.X).(*ast.Ident); isID && id == u.Ident {
+									written = "the address of an element is taken"
+								}
+							}
+						}
+					case *ast.CallExpr:
+						if id, isID := ast.Unparen(x.Fun).(*ast.Ident); isID && info.Uses[id] != nil && info.Uses[id].Pkg() == nil {
+							switch id.Name {
+							case "append", "copy", "clear", "delete":
+								if len(x.Args) > 0 && x.Args[0].Pos() <= u.Ident.Pos() && u.Ident.End() <= x.Args[0].End() {
+									written = "it is the target of " + id.Name
+								}
+							}
+						}
+					case ast.Stmt:
+						k = -1
+					}
+				}
+				r.Site(u.Ident.Pos(), "use of the checkpoint assignment list")
+				if written != "" {
+					r.Fail(dp.Name()+":assignment-overridden", u.Ident.Pos(), nil, "the list AssignRanges returned is changed before it is used (%s): operator i would be deployed with other checkpoints than the ones whose key-group ranges overlap its own range — an operator that kept its id but moved to another position reopens the state of its old range and loses the state of its new one", written)
+				}
 			}
 			// the old ranges stay index-aligned with the old checkpoints: between being filled and being
 			// handed to AssignRanges the slice is not passed to anything (sort, reverse, compact, append)
@@ -256,6 +311,49 @@ func init() {
 					})
 					if clean && r.exprCalls(ai, inner.Body, overlaps) {
 						independent = true
+					}
+					// the overlap test written out: the old range's index is appended exactly when
+					// from.Start < to.End && to.Start < from.End, decided as a truth table over all orderings
+					if clean && !independent {
+						names := map[string]string{}
+						ast.Inspect(inner.Body, func(m ast.Node) bool {
+							sel, isSel := m.(*ast.SelectorExpr)
+							if !isSel || (sel.Sel.Name != "Start" && sel.Sel.Name != "End") {
+								return true
+							}
+							pre := ""
+							switch {
+							case outer.IsElem(sel.X):
+								pre = "t"
+							case inner.IsElem(sel.X):
+								pre = "f"
+							default:
+								return true
+							}
+							names[types.ExprString(sel)] = pre + strings.ToLower(sel.Sel.Name[:1])
+							return true
+						})
+						if len(names) == 4 {
+							m := orderdom.New(ai, names)
+							m.IgnoreStores = true
+							m.Effect = func(call *ast.CallExpr) bool {
+								id, isID := call.Fun.(*ast.Ident)
+								return isID && id.Name == "append" && ai.Uses[id] == types.Universe.Lookup("append")
+							}
+							res := m.CheckBody(inner.Body.List, nil, func(e odEnv) orderdom.Value {
+								if e.Rank["fs"] < e.Rank["te"] && e.Rank["ts"] < e.Rank["fe"] {
+									return orderdom.Sym("effect")
+								}
+								return orderdom.Sym("end")
+							})
+							r.Site(inner.Pos(), fmt.Sprintf("AssignRanges inline overlap test: %d orderings", res.Orderings))
+							if res.Undecided != "" || res.Mismatch != nil {
+								r.Note("inline overlap test: undecided=%q mismatch=%v names=%v", res.Undecided, res.Mismatch, names)
+							}
+							if res.Undecided == "" && res.Orderings > 0 && res.Mismatch == nil {
+								independent = true
+							}
+						}
 					}
 				}
 			}
